@@ -35,8 +35,17 @@ package pool
 //@   ensures data_kept: forall r RootK :: {ap.datas[r]} old(has(ap.datas, r)) ==> has(ap.datas, r) && ap.datas[r] == old(ap.datas[r])
 //@   ensures single_kept: forall a AssignK :: {ap.individual[a]} old(has(ap.individual, a)) ==> has(ap.individual, a) && ap.individual[a] == old(ap.individual[a])
 //@   ensures single_stored: bl_count(att.AggregationBits) == 1 && err == nil ==> (exists a AssignK :: has(ap.individual, a) && a.Epoch == att.Data.Target.Epoch && ap.individual[a].DataRoot == att_data_root(att.Data))
+//@   ensures agg_adds: (let root := att_data_root(att.Data) in bl_count(att.AggregationBits) >= 2 && old(has(ap.aggregate, root)) && bl_len(old(ap.aggregate[root].Participants)) == bl_len(att.AggregationBits) && !bl_covers_err(old(ap.aggregate[root].Participants), att.AggregationBits) && !bl_covers(old(ap.aggregate[root].Participants), att.AggregationBits) ==> err == nil && ap.aggregate[root] == old(ap.aggregate[root]) && len(ap.aggregate[root].Aggregates) == old(len(ap.aggregate[root].Aggregates)) + 1 && eqseq(ap.aggregate[root].Aggregates[len(ap.aggregate[root].Aggregates) - 1].Participants, att.AggregationBits) && ap.aggregate[root].Aggregates[len(ap.aggregate[root].Aggregates) - 1].Sig == att.Signature)
+//@   ensures agg_covered: (let root := att_data_root(att.Data) in bl_count(att.AggregationBits) >= 2 && old(has(ap.aggregate, root)) && bl_len(old(ap.aggregate[root].Participants)) == bl_len(att.AggregationBits) && !bl_covers_err(old(ap.aggregate[root].Participants), att.AggregationBits) && bl_covers(old(ap.aggregate[root].Participants), att.AggregationBits) ==> err == nil && len(ap.aggregate[root].Aggregates) == old(len(ap.aggregate[root].Aggregates)) && (old(len(ap.aggregate[root].Extra)) < ap.maxExtraAggregates ==> len(ap.aggregate[root].Extra) == old(len(ap.aggregate[root].Extra)) + 1 && eqseq(ap.aggregate[root].Extra[len(ap.aggregate[root].Extra) - 1].Participants, att.AggregationBits)))
+//@   ensures agg_first: (let root := att_data_root(att.Data) in bl_count(att.AggregationBits) >= 2 && !old(has(ap.aggregate, root)) && err == nil ==> has(ap.aggregate, root) && len(ap.aggregate[root].Aggregates) == 1 && eqseq(ap.aggregate[root].Aggregates[0].Participants, att.AggregationBits) && ap.aggregate[root].Aggregates[0].Sig == att.Signature)
+//@   ensures agg_kept1: forall r RootK :: {ap.aggregate[r]} old(has(ap.aggregate, r)) ==> has(ap.aggregate, r)
+//@   ensures agg_kept2: forall r RootK :: {ap.aggregate[r]} old(has(ap.aggregate, r)) ==> ap.aggregate[r] == old(ap.aggregate[r])
+//@   ensures agg_kept3: forall r RootK :: {ap.aggregate[r]} old(has(ap.aggregate, r)) ==> len(ap.aggregate[r].Aggregates) >= old(len(ap.aggregate[r].Aggregates))
+//@   ensures agg_marks: (let root := att_data_root(att.Data) in bl_count(att.AggregationBits) >= 2 && old(has(ap.aggregate, root)) && bl_len(old(ap.aggregate[root].Participants)) == bl_len(att.AggregationBits) && !bl_covers_err(old(ap.aggregate[root].Participants), att.AggregationBits) && !bl_covers(old(ap.aggregate[root].Participants), att.AggregationBits) ==> (forall j :: {committee[j]} 0 <= j && j < len(committee) && bl_bit(att.AggregationBits, j) ==> has(ap.aggPerValidator, Assignment(committee[j], att.Data.Target.Epoch)) && ap.aggPerValidator[Assignment(committee[j], att.Data.Target.Epoch)] == root))
 //@   loop 1
 //@     invariant !isnil(ap.aggPerValidator)
+//@     invariant key.Epoch == att.Data.Target.Epoch
+//@     invariant marked: forall j :: {committee[j]} 0 <= j && j <= rangeindex && bl_bit(att.AggregationBits, j) ==> has(ap.aggPerValidator, Assignment(committee[j], att.Data.Target.Epoch)) && ap.aggPerValidator[Assignment(committee[j], att.Data.Target.Epoch)] == att_data_root(att.Data)
 //@   loop 2
 //@     invariant !isnil(ap.aggPerValidator)
 
